@@ -23,14 +23,15 @@ open ThermoVerif.Links
 /-! ## Constructors keep their arguments -/
 
 /-- The constructor stores the price, the characterization factors, the ID, the package, T, P,
-the phase(s) and the flows it was given. -/
+the phase(s) and the flows it was given — the flows as `Args.row` says: kmol/hr as given, or converted
+from `units=` (molar or mass units) and rescaled to `total_flow=` (see `ctor_units_total`). -/
 theorem ctor_keeps_args (w : World) (a : Args) (w' : World) (i : Nat) (h : w.ctor a = .ok (w', i)) :
     (w'.observe i).price = a.price ∧ (w'.observe i).cf = a.cf ∧ (w'.observe i).sid = a.sid ∧
     (w'.observe i).pkg = a.pkg ∧ (w'.observe i).T = a.T ∧ (w'.observe i).P = a.P ∧
     (w'.observe i).phases = (if a.multi then normPh a.phases else [a.phases.headD .l]) ∧
     (w'.observe i).flows =
-      (if a.multi then (List.range (normPh a.phases).length).map (fun k => rowOf (a.flows.getD k []))
-       else [rowOf (a.flows.headD [])]) := by
+      (if a.multi then (List.range (normPh a.phases).length).map (fun k => a.row k)
+       else [a.row 0]) := by
   have hf : a.flowsOk = true := by
     cases hf : a.flowsOk with
     | true => rfl
@@ -49,6 +50,59 @@ theorem ctor_keeps_args (w : World) (a : Args) (w' : World) (i : Nat) (h : w.cto
     simp [World.observe, World.pushStr, World.newImol, World.newRow, World.newPh, World.phasesOf,
       World.rowIdsOf, World.newTc, World.newCf]
 
+
+/-- What `units=` and `total_flow=` do to a given value `v` of chemical `c` (with `Σ` the sum of all given
+values): no units — `v`, rescaled by `total/Σ` when a non-zero total is given; molar units with factor `f`
+— `v·(total/Σ)/f`; mass units — additionally divided by the molecular weight. -/
+theorem ctor_units_total (a : Args) (k c : Nat) :
+    (a.units = none → a.total = none → a.row k c = rowOf (a.flows.getD k []) c) ∧
+    (∀ t, a.units = none → a.total = some t → t ≠ 0 →
+      a.row k c = rowOf (a.flows.getD k []) c * (t / a.given)) ∧
+    (∀ f, a.units = some (false, f) → a.total = none → a.row k c = rowOf (a.flows.getD k []) c / f) ∧
+    (∀ f t, a.units = some (false, f) → a.total = some t →
+      a.row k c = rowOf (a.flows.getD k []) c * (t / a.given) / f) ∧
+    (∀ f t, a.units = some (true, f) → a.total = some t →
+      a.row k c = rowOf (a.flows.getD k []) c * (t / a.given) / f / a.mw c) := by
+  refine ⟨?_, ?_, ?_, ?_, ?_⟩
+  · intro h1 h2; simp [Args.row, h1, h2]
+  · intro t h1 h2 h3; simp [Args.row, h1, h2, h3]
+  · intro f h1 h2; simp [Args.row, h1, h2]
+  · intro f t h1 h2; simp [Args.row, h1, h2]
+  · intro f t h1 h2; simp [Args.row, h1, h2]
+
+/-- `MultiStream.from_streams`: the new multi-phase stream has the sorted phases of the given single-phase
+streams, its row objects are their row objects (so flows are equal and shared), its thermal-condition object
+is the first stream's, and every given stream now holds that thermal-condition object too. -/
+theorem from_streams_keeps (w : World) (base : Nat) (others : List Nat) (w' : World) (i : Nat)
+    (h : w.fromStreams (base :: others) = .ok (w', i)) :
+    i = w.nS ∧
+    w'.phasesOf (w'.strs i).imol = normPh ((base :: others).map fun j => (w.phasesOf (w.strs j).imol).headD .l) ∧
+    (w'.rowIdsOf (w'.strs i).imol =
+      (normPh ((base :: others).map fun j => (w.phasesOf (w.strs j).imol).headD .l)).map fun p =>
+        (w.rowIdsOf (w.strs ((base :: others).getD
+          ((((base :: others).map fun j => (w.phasesOf (w.strs j).imol).headD .l).idxOf? p).getD 0) 0)).imol).headD 0) ∧
+    (w'.strs i).tc = (w.strs base).tc ∧ w'.tcs = w.tcs ∧ w'.rows = w.rows ∧
+    ((w'.observe i).T = (w.observe base).T ∧ (w'.observe i).P = (w.observe base).P) := by
+  unfold World.fromStreams at h
+  simp only at h
+  split at h
+  · cases h
+  · split at h
+    · cases h
+    · have hfold : ∀ (l : List Nat) (w0 : World) (tc : Nat),
+          (l.foldl (fun w i => w.setStr i { w.strs i with tc := tc }) w0).nS = w0.nS ∧
+          (l.foldl (fun w i => w.setStr i { w.strs i with tc := tc }) w0).tcs = w0.tcs ∧
+          (l.foldl (fun w i => w.setStr i { w.strs i with tc := tc }) w0).rows = w0.rows ∧
+          (l.foldl (fun w i => w.setStr i { w.strs i with tc := tc }) w0).next = w0.next := by
+        intro l
+        induction l with
+        | nil => intro w0 tc; simp
+        | cons x xs ih => intro w0 tc; simpa using ih (w0.setStr x { w0.strs x with tc := tc }) tc
+      obtain ⟨f1, f2, f3, f4⟩ := hfold others w (w.strs base).tc
+      cases h
+      refine ⟨by simp [f1], by simp [World.phasesOf, f1], ?_, by simp [f1], by simp [f2], by simp [f3], ?_⟩
+      · simp [World.rowIdsOf, f1, f4]
+      · simp [World.observe, f1, f2]
 
 /-! ## Copies -/
 
@@ -361,6 +415,37 @@ theorem slot_pickle_roundtrip {V : Type} (slots : List Nat) (obj : Nat → Optio
       simp [hk]
       exact ih
 
+/-- `Chemical.__reduce__` = `unpickle_chemical(get_chemical_data(self))`: every slot reads the same through
+`getattr(chemical, slot, None)` after the round trip (user-set data, locked state, synonyms and aliases are slots). -/
+theorem chemical_pickle_roundtrip {V : Type} (slots : List Nat) (obj : Nat → Option (Option V)) (k : Nat)
+    (hk : k ∈ slots) : observeD (chemFromData (chemGetData slots obj)) k = observeD obj k := by
+  induction slots with
+  | nil => simp at hk
+  | cons x xs ih =>
+    by_cases hx : k = x
+    · subst hx; simp [observeD, chemFromData, chemGetData, List.lookup]
+    · have hne : (k == x) = false := by simp [hx]
+      have hk' : k ∈ xs := by simpa [hx] using hk
+      simp only [observeD, chemFromData, chemGetData, List.map_cons, List.lookup, hne] at ih ⊢
+      exact ih hk'
+
+/-- `CompiledChemicals` (hence `Thermo`, which holds one in a slot): chemicals, the names they answer to and the
+chemical groups are the same after the round trip, so every name — ID, synonym, alias, group — is looked up to
+the same position(s).  (The groups are part of the pickle only with fix C13-11.) -/
+theorem compiled_chemicals_pickle_roundtrip (x : CChems) :
+    CChems.rebuild x.pickleArgs = x ∧ ∀ name, (CChems.rebuild x.pickleArgs).index name = x.index name :=
+  ⟨rfl, fun _ => rfl⟩
+
+/-- Objects pickled through their slots by the default protocol or by `cucumber` (`Reaction`,
+`ParallelReaction`, `Thermo`): with the recipe = all slots, the rebuilt object has every slot as before, set
+or unset. -/
+theorem slotted_pickle_roundtrip {V : Type} (slots : List Nat) (obj : Nat → Option V)
+    (hall : ∀ k, k ∉ slots → obj k = none) : newFromState (getState slots obj) = obj := by
+  funext k
+  by_cases hk : k ∈ slots
+  · exact (slot_pickle_roundtrip slots obj k).1 hk
+  · rw [(slot_pickle_roundtrip slots obj k).2 hk, hall k hk]
+
 /-! ## Frame and histories -/
 
 /-- Every stream of every reachable world refers to allocated objects only. -/
@@ -407,6 +492,27 @@ theorem separation_history (l : List (Op × Bool)) (w : World) (σ : Nat → Boo
     ∀ j, j < w.nS → (∀ p ∈ l, p.2 ≠ σ j) → (runSided w σ l).1.observe j = w.observe j :=
   ⟨(sep_run l w σ hsc hsep hone).2.1, fun j hj hall => ((sep_run l w σ hsc hsep hone).2.2 j hj hall).2⟩
 
+
+/-! ## Phase views -/
+
+/-- Phase views follow their stream: after every operation of every history — constructors,
+mutators, `copy`, `copy(thermo=)`, `copy_like` (including the growth of the phase tuple and the
+change single-phase → multi-phase), `link_with`, `unlink`, `proxy`, `flow_proxy`, pickling, and
+taking views `ms[p]` — each view a stream has handed out is bound to that stream's *current* row
+object for its phase and to its *current* thermal-condition object (and streams created by an
+operation have handed out none).  The one situation left out is an explicit hypothesis:
+`NoAliasRelink` — no operation of the history flow-links a stream while a proxy partner of it
+(another stream object holding the same indexer object) has handed out views. -/
+theorem views_follow_parent (l : List VOp) (hno : NoAliasRelink VWorld.init l) :
+    ∀ i, i < (VWorld.init.run l).w.nS → ∀ e ∈ (VWorld.init.run l).vdict i,
+      (VWorld.init.run l).w.rowOfPhase i e.1 = some e.2.1 ∧ e.2.2 = ((VWorld.init.run l).w.strs i).tc :=
+  (vinv_run l VWorld.init scoped_init wfAll_init vinv_init hno).1.1
+
+/-- One operation keeps the views attached, from any state in which they are (so the clause also
+holds from states that were not reached from the empty world). -/
+theorem views_follow_parent_step (vw : VWorld) (op : VOp) (vw' : VWorld) (hsc : Scoped vw.w) (hwf : WFAll vw.w)
+    (hinv : VInv vw) (hna : ¬ AliasRelink vw op) (h : vw.step op = .ok vw') : VInv vw' :=
+  vinv_step vw op vw' hsc hwf hinv hna h
 
 /-! ## Non-vacuity: the hypotheses above are met by concrete, non-trivial states -/
 
@@ -474,5 +580,41 @@ example : OneSided (exW.copy 1).1 (fun i => i == 2)
 /-- Non-vacuity of `pickle_roundtrip` -/
 example : WFStream exW 0 ∧ WFStream exW 1 := by decide
 
+
+instance decAliasRelink (vw : VWorld) (op : VOp) : Decidable (AliasRelink vw op) := by
+  cases op with
+  | view i p => exact isFalse (by simp [AliasRelink])
+  | op o =>
+    cases o with
+    | link t s f p tp => simp only [AliasRelink]; exact inferInstance
+    | _ => exact isFalse (by simp [AliasRelink])
+
+instance decNoAliasRelink : ∀ (l : List VOp) (vw : VWorld), Decidable (NoAliasRelink vw l)
+  | [], _ => isTrue trivial
+  | op :: rest, vw =>
+    match h : vw.step op with
+    | .ok vw' =>
+      have := decNoAliasRelink rest vw'
+      decidable_of_iff (¬ AliasRelink vw op ∧ NoAliasRelink vw' rest) (by simp [NoAliasRelink, h])
+    | .skip =>
+      have := decNoAliasRelink rest vw
+      decidable_of_iff (¬ AliasRelink vw op ∧ NoAliasRelink vw rest) (by simp [NoAliasRelink, h])
+    | .err _ => decidable_of_iff (¬ AliasRelink vw op) (by simp [NoAliasRelink, h])
+
+/-- Non-vacuity of `views_follow_parent`: views are taken, the stream is linked (flows and T/P), unlinked,
+grown by `copy_like` from a solid stream, proxied, the proxy takes its own view and is unlinked. -/
+example : NoAliasRelink VWorld.init
+    ((exOps.map VOp.op) ++
+     [ .op (.new { multi := true, sid := none, pkg := [3, 1], pkgId := 1, phases := [.g, .l], flows := [[], [(1, 9)]],
+                   T := 400, P := 100000, price := 0, cf := [] }),
+       .view 1 .l, .view 1 .g, .op (.link 1 2 true true true), .op (.setFlow 2 .l 1 4), .op (.unlink 1),
+       .op (.copyLike 1 0), .view 1 .s, .op (.proxy 1), .view 3 .l, .op (.unlink 3), .op (.link 1 2 false false true) ]) ∧
+    ((VWorld.init.run ((exOps.map VOp.op) ++
+     [ .op (.new { multi := true, sid := none, pkg := [3, 1], pkgId := 1, phases := [.g, .l], flows := [[], [(1, 9)]],
+                   T := 400, P := 100000, price := 0, cf := [] }),
+       .view 1 .l, .view 1 .g, .op (.link 1 2 true true true), .op (.setFlow 2 .l 1 4), .op (.unlink 1),
+       .op (.copyLike 1 0), .view 1 .s, .op (.proxy 1), .view 3 .l, .op (.unlink 3),
+       .op (.link 1 2 false false true) ])).vdict 1).length = 3 := by
+  constructor <;> decide +kernel
 
 end ThermoVerif.Props.C13
